@@ -205,10 +205,51 @@ fn check_case(name: &str, aliases: &[String], tuple: &[&str], ctx_kind: usize, s
 }
 
 
+/// Tens of thousands of calls of one cheap script-implemented command while the caller holds
+/// collections: every call makes (and gives back) an argument array, so this is also that many handles
+/// made in one run - the caller's collections are what they were, no argument array remains.
+fn very_many_calls(w: &mut Worker) {
+    for n in w.tier.pick(vec![70_000usize], vec![70_000usize, 300_000]) {
+        if !w.take() {
+            continue;
+        }
+        let text = format!(
+            "arr = array a b c\nm = map\nmap_put ${{m}} k v\ni = set 0\nwhile less_than ${{i}} {n}\ni = calc ${{i}} + 1\ne = array_is_empty ${{arr}}\nend\nlen = array_length ${{arr}}\nj = array_join ${{arr}} ,\nv = map_get ${{m}} k\nisarr = is_array ${{arr}}\nismap = is_map ${{m}}\nrelease ${{arr}}\nrelease ${{m}}",
+            n = n
+        );
+        let cj = json!({"kind": "scale", "name": format!("very-many-calls count {}", n), "script": text});
+        w.begin(|| cj.clone());
+        w.add_transitions(1);
+        let (env, _o, _e, _h) = quiet_env();
+        match guarded(|| duckscript::runner::run_script(&text, sdk_context(), Some(env))) {
+            Err(p) => w.fail("scale:panic", &p, cj),
+            Ok(Err(e)) => w.fail("scale:run-failed", &format!("the run failed: {}", e), cj),
+            Ok(Ok(c)) => {
+                let vars = sorted_vars(&c.variables);
+                let ok = vars.get("len").map(|s| s.as_str()) == Some("3")
+                    && vars.get("j").map(|s| s.as_str()) == Some("a,b,c")
+                    && vars.get("v").map(|s| s.as_str()) == Some("v")
+                    && vars.get("isarr").map(|s| s.as_str()) == Some("true")
+                    && vars.get("ismap").map(|s| s.as_str()) == Some("true")
+                    && vars.get("e").map(|s| s.as_str()) == Some("false")
+                    && vars.get("i") == Some(&n.to_string());
+                let handles = handle_table(&c.state);
+                if !ok {
+                    w.fail("scale:very-many-calls:collections-changed", &format!("after {} calls of array_is_empty: len={:?} j={:?} v={:?} is_array={:?} is_map={:?}", n, vars.get("len"), vars.get("j"), vars.get("v"), vars.get("isarr"), vars.get("ismap")), cj);
+                } else if !handles.is_empty() {
+                    w.fail("scale:very-many-calls:handles-left", &format!("after {} calls and the release of both collections {} handles remain", n, handles.len()), cj);
+                } else {
+                    w.pass(true, hash64(&"scale-very-many-calls"));
+                }
+            }
+        }
+    }
+}
+
 /// Hundreds of calls of script-implemented commands (flat ones, nested ones, failing ones) in one run:
 /// afterwards the variables are exactly the script's own and no temporary argument array remains.
 fn scale(w: &mut Worker) {
-    for n in w.tier.pick(vec![300usize], vec![300usize, 3000]) {
+    for n in with_thresholds_usize(w.tier.pick(vec![300usize], vec![300usize, 3000]), w.tier.pick(256, 4096)) {
         if !w.take() {
             continue;
         }
@@ -284,6 +325,8 @@ pub fn worker(w: &mut Worker) {
     w.risky = true;
     w.set_case_limit_ms(30_000);
     scale(w);
+    w.set_case_limit_ms(120_000);
+    very_many_calls(w);
     w.set_case_limit_ms(4_000);
     let _ = std::fs::create_dir_all(&w.scratch);
     let work = w.scratch.join("c19-cwd");
@@ -345,7 +388,7 @@ pub fn crash_sig(case: &Value, kind: &str) -> String {
     format!("{}:{}", kind, case["command"].as_str().unwrap_or("?"))
 }
 
-pub const RULE: &str = "commands: every standard-library command whose help carries the 'Show Source' block (that is how script-implemented commands render themselves; discovered at run time, std::net excluded) x every argument tuple up to the arity bound from a 19-value pool {empty, a, ' a', 'a ', NBSP+a, 'a b', multi-byte, -1, 0, 2.5, live array/map/set handle, released handle, -r, text with a line break, 'x,y', '*.txt', the name of the variable in which the command itself receives its arguments} x context {top level, inside a user function, inside a for body, three times in a row, as the condition of an if}; the caller's variables are pre-set, including names that resemble the internal names of the command under test (scope::<alias>x::string, scope::<alias>). Oracle: variables after the run equal the variables before it, apart from the output variable and the names given to unset; no scope:: variable is left; every pre-existing collection is unchanged; at most the returned collection is new in the handle table; the run does not fail ('Memory leak detected' is a failure). Scale case: 300 (thorough 3000) rounds of seven script-implemented commands (flat, nested, failing) in one run: afterwards the variables are exactly the script's own and no list equal to the argument list of one of the calls remains in the handle table. The caller's collections name each other (an item of the array is the handle of the set, an item of the set the handle of another array, a key of the map the handle of the array), so a command that releases a working copy together with what its items name destroys a caller's collection";
+pub const RULE: &str = "commands: every standard-library command whose help carries the 'Show Source' block (that is how script-implemented commands render themselves; discovered at run time, std::net excluded) x every argument tuple up to the arity bound from a 19-value pool {empty, a, ' a', 'a ', NBSP+a, 'a b', multi-byte, -1, 0, 2.5, live array/map/set handle, released handle, -r, text with a line break, 'x,y', '*.txt', the name of the variable in which the command itself receives its arguments} x context {top level, inside a user function, inside a for body, three times in a row, as the condition of an if}; the caller's variables are pre-set, including names that resemble the internal names of the command under test (scope::<alias>x::string, scope::<alias>). Oracle: variables after the run equal the variables before it, apart from the output variable and the names given to unset; no scope:: variable is left; every pre-existing collection is unchanged; at most the returned collection is new in the handle table; the run does not fail ('Memory leak detected' is a failure). Scale case: 300 (thorough 3000) rounds of seven script-implemented commands (flat, nested, failing) in one run: afterwards the variables are exactly the script's own and no list equal to the argument list of one of the calls remains in the handle table. The caller's collections name each other (an item of the array is the handle of the set, an item of the set the handle of another array, a key of the map the handle of the array), so a command that releases a working copy together with what its items name destroys a caller's collection. Very many calls: 70000 (thorough 300000) calls of array_is_empty around two live collections: the collections are what they were and no handle remains after their release";
 pub const ASSUMPTIONS: &[&str] = &["arguments are passed through caller variables p1..p3", "file-system effects of cp_glob / set_mode_glob are confined to a scratch working directory and not part of this property"];
 pub const EXHAUSTIVE: bool = true;
 pub const WALL_CAP_S: (u64, u64) = (58, 1700);
